@@ -173,6 +173,33 @@ pub fn run(ctx: &Ctx) -> Rep {
                 );
             }
         }
+        // the same in two seeded slot orders, through the other five-card entry points as well (the free
+        // function and validated ranking must be as suit-blind as the trait method, in any arrangement)
+        let mut rng = Rng::new(seed, drive::hand_code(c) ^ 0x8585);
+        for _ in 0..2 {
+            let pc = permuted(c, &mut rng);
+            for p in perms4.iter() {
+                let mut r = [0u8; 5];
+                for k in 0..5 {
+                    r[k] = model::idx(model::rank_of(pc[k]), p[model::suit_of(pc[k]) as usize]);
+                }
+                let wr = words_of(&r);
+                let h = Five::from(wr);
+                let got = [h.hand_rank_value(), ckc_rs::evaluate::five_cards(wr), h.hand_rank_value_validated()];
+                st.rep.evaluations += 3;
+                for (k, &v) in got.iter().enumerate() {
+                    if v != v0 {
+                        st.rep.violation(
+                            "the value is unchanged by any consistent relabelling of the four suits",
+                            ["Five::hand_rank_value", "evaluate::five_cards", "Five::hand_rank_value_validated"][k],
+                            Input::Idx(r.to_vec()),
+                            format!("{} (value of {} as dealt)", v0, model::hand_name(c)),
+                            format!("{} for {}", v, model::hand_name(&r)),
+                        );
+                    }
+                }
+            }
+        }
         // and through the crate's own shift
         if selected(c, seed, 0x85, 4) {
             check_value_shift(st, c);
@@ -299,9 +326,12 @@ pub fn replay(_ctx: &Ctx, inp: &Input, _clause: &str) -> Rep {
                     for k in 0..24 {
                         let p = nth_permutation(4, k);
                         let r: Vec<u8> = v.iter().map(|&i| model::idx(model::rank_of(i), p[model::suit_of(i) as usize])).collect();
-                        let vv = Five::from(words_of(&[r[0], r[1], r[2], r[3], r[4]])).hand_rank_value();
-                        if vv != v0 {
-                            st.rep.violation("the value is unchanged by any consistent relabelling of the four suits", "Five::hand_rank_value", inp.clone(), format!("{}", v0), format!("{} for {}", vv, model::hand_name(&r)));
+                        let wr = words_of(&[r[0], r[1], r[2], r[3], r[4]]);
+                        let hh = Five::from(wr);
+                        for (e, vv) in [("Five::hand_rank_value", hh.hand_rank_value()), ("evaluate::five_cards", ckc_rs::evaluate::five_cards(wr)), ("Five::hand_rank_value_validated", hh.hand_rank_value_validated())] {
+                            if vv != v0 {
+                                st.rep.violation("the value is unchanged by any consistent relabelling of the four suits", e, inp.clone(), format!("{}", v0), format!("{} for {}", vv, model::hand_name(&r)));
+                            }
                         }
                     }
                 }
